@@ -25,7 +25,7 @@ import (
 func init() {
 	Registry["C16"] = &Check{
 		Scenarios: c16Scenarios,
-		Rule: "the version octet of the request rotates over {1, 0, 2, 255}: the answer is built as a version-1 message; requests no handler is registered for (STR, CCR, RAR, an undefined command; P bit set / clear; T bit) on a bare ServeMux and on a state machine after the handshake: whatever the library sends back must mirror the request; complete grid: hop-by-hop and end-to-end ids from {0,1,2^31,2^32-1}^2 x all 256 command flag bytes x every (application, command) of the embedded dictionaries x result code {0 (none asked), 2001, 5012, 2^32-1} through Message.Answer; a second CER on a connection whose handshake has completed (if it is answered, the answer must mirror it); the state machine's success CEA, each failure CEA (5010, 5017, 5012, and 5012 for a CER that cannot be unmarshalled because the connection's dictionary lacks an AVP the CER struct names) and DWA for the same id grid over an in-memory transport; the same requests arriving on SCTP streams {0,1,5,15} of the in-memory multistream backend (and on a stream-less transport), answered by a handler through Answer().WriteTo (answers of ordinary size and of 65400..200000 octets, around and beyond 64 KiB; requests with one AVP and requests that consist of their header only; requests that are first relayed - the received message written with explicit other streams to an upstream multistream writer that accepts or refuses - and then answered) and by the state machine: the backend must record the answer on the request's stream, also when the answer to a request is written later, while a request from another stream is being handled (all 16 stream pairs), also when the first 1 or 2 write attempts of that answer fail with a temporary error and are retried (WriteToWithRetry); and two application goroutines answering requests of different streams concurrently (every schedule up to preemption bound 2, thorough 3), on an association attached with NewConn and on one accepted by a Server with ReadTimeout and WriteTimeout set.",
+		Rule: "the version octet of the request rotates over {1, 0, 2, 255}: the answer is built as a version-1 message; requests no handler is registered for (STR, CCR, RAR, an undefined command; P bit set / clear; T bit) on a bare ServeMux and on a state machine after the handshake: whatever the library sends back must mirror the request; complete grid: hop-by-hop and end-to-end ids from {0,1,2^31,2^32-1}^2 x all 256 command flag bytes x every (application, command) of the embedded dictionaries x result code {0 (none asked), 2001, 5012, 2^32-1} through Message.Answer; a second CER on a connection whose handshake has completed (if it is answered, the answer must mirror it); the state machine's success CEA, each failure CEA (5010, 5017, 5012, and 5012 for a CER that cannot be unmarshalled because the connection's dictionary lacks an AVP the CER struct names) and DWA for the same id grid over an in-memory transport; the same requests arriving on SCTP streams {0,1,5,15} of the in-memory multistream backend (and on a stream-less transport), answered by a handler through Answer().WriteTo (answers of ordinary size and of 65400..200000 octets, around and beyond 64 KiB; requests with one AVP and requests that consist of their header only; requests that are first relayed - the received message written with explicit other streams to an upstream multistream writer that accepts or refuses - and then answered; replies on a connection whose writer stream the application has pinned with SetWriterStream) and by the state machine: the backend must record the answer on the request's stream, also when the answer to a request is written later, while a request from another stream is being handled (all 16 stream pairs), also when the first 1 or 2 write attempts of that answer fail with a temporary error and are retried (WriteToWithRetry); and two application goroutines answering requests of different streams concurrently (every schedule up to preemption bound 2, thorough 3), on an association attached with NewConn and on one accepted by a Server with ReadTimeout and WriteTimeout set.",
 		Assume: []string{"single default schedule per exchange", "in-memory SCTP backend (hook diam/sctp_verif.go)"},
 		QuickBudget: 120, ThoroughBudget: 900,
 	}
@@ -402,13 +402,18 @@ func c16Streams(r *SeqResult) {
 				c16ForwardUp, c16ForwardFail = true, hi%2 == 1
 				c16StreamCase(r, stream, hbh, rc, 0, false)
 				c16ForwardUp = false
+				// the application has pinned a writer stream for what it sends itself through the Write
+				// adaptor (SetWriterStream, left set): replies still go to the stream of their request
+				c16PinWriter = true
+				c16StreamCase(r, stream, hbh, rc, 0, false)
+				c16PinWriter = false
 			}
 		}
 	}
 }
 
 // c16ForwardUp: the handler of c16StreamCase relays the request upstream before it answers it.
-var c16ForwardUp, c16ForwardFail bool
+var c16ForwardUp, c16ForwardFail, c16PinWriter bool
 
 // c16Upstream is the upstream connection of a relay: a MultistreamWriter that accepts or refuses.
 type c16Upstream struct {
@@ -429,7 +434,7 @@ func (u *c16Upstream) ResetWriterStream()        {}
 func (u *c16Upstream) SetWriterStream(uint) uint { return 0 }
 
 func c16StreamCase(r *SeqResult, stream uint16, hbh, rc uint32, extra int, bare bool) {
-	forward, forwardFail := c16ForwardUp, c16ForwardFail
+	forward, forwardFail, pin := c16ForwardUp, c16ForwardFail, c16PinWriter
 	var be *vnet.SCTP
 	s := vs.Run(nil, false, 5*time.Second, false, func() {
 		be = vnet.NewSCTP("S")
@@ -454,8 +459,14 @@ func c16StreamCase(r *SeqResult, stream uint16, hbh, rc uint32, extra int, bare 
 			a.WriteToWithRetry(c, 1)
 		})
 		msc := diam.NewSCTPConnBackend(be)
-		if _, err := diam.NewConn(msc, "peer", mux, dict.Default); err != nil {
+		dc, err := diam.NewConn(msc, "peer", mux, dict.Default)
+		if err != nil {
 			return
+		}
+		if pin {
+			if mw, ok := dc.(diam.MultistreamWriter); ok {
+				mw.SetWriterStream(uint(stream) + 3)
+			}
 		}
 		nodes := []refcodec.Node{ident(264, "c")}
 		if bare {
@@ -504,7 +515,7 @@ func c16StreamCase(r *SeqResult, stream uint16, hbh, rc uint32, extra int, bare 
 		v = fmt.Sprintf("%d answers recorded, expected 2", n)
 	}
 	if v != "" {
-		r.Violation = fmt.Sprintf("handler answer (Answer(%d).WriteTo, %d extra octets) to a request (header only: %v; forwarded upstream on other streams before it was answered: %v, upstream failing: %v) on SCTP stream %d with hop-by-hop %#x: %s", rc, extra, bare, forward, forwardFail, stream, hbh, v)
+		r.Violation = fmt.Sprintf("handler answer (Answer(%d).WriteTo, %d extra octets) to a request (header only: %v; forwarded upstream on other streams before it was answered: %v, upstream failing: %v; writer stream pinned by the application: "+fmt.Sprint(pin)+") on SCTP stream %d with hop-by-hop %#x: %s", rc, extra, bare, forward, forwardFail, stream, hbh, v)
 		r.Case = map[string]interface{}{"stream": stream, "hbh": hbh, "rc": rc, "extra": extra, "bare": bare}
 	}
 }
